@@ -245,10 +245,23 @@ def _prefetch(cases, nworkers):
     sigs = {}
     for c in cases:
         sigs.setdefault(c['sig'], []).append(c)
-    order = sorted(sigs, key=lambda s: -sum(len(c['runs']) * len(c['traces']) for c in sigs[s]))
-    buckets = [[] for _ in range(max(1, min(nworkers, len(order))))]
-    for i, s in enumerate(order):
-        buckets[i % len(buckets)].extend(sigs[s])
+
+    def cost(c):          # seconds, roughly: a launch with 16 threads is slow on a loaded machine
+        nb = _nb_of(c)
+        return sum((0.5 if r['threads'] >= 16 else 0.03) * nb for r in c['runs']) + 0.002 * len(c['traces']) * len(c['traces'][0])
+
+    chunks = []           # a signature with many cases is split (each chunk pays the JIT compilation again, in parallel)
+    for sg, cs in sigs.items():
+        for i in range(0, len(cs), 10):
+            part = cs[i:i + 10]
+            chunks.append((12.0 + sum(cost(c) for c in part), part))
+    chunks.sort(key=lambda x: -x[0])
+    nb_ = max(1, min(nworkers, len(chunks)))
+    buckets, load = [[] for _ in range(nb_)], [0.0] * nb_
+    for w, part in chunks:
+        i = load.index(min(load))
+        buckets[i].extend(part)
+        load[i] += w
     core.WORK.mkdir(exist_ok=True)
     tmp = tempfile.mkdtemp(prefix='c11-', dir=str(core.WORK))
     tools = os.path.dirname(os.path.dirname(os.path.abspath(__file__)))
@@ -292,10 +305,15 @@ def _some_lists(rng, nb, k):
     return out
 
 
+TIER = {'quick': True}
+
+
 def _runs(rng, lists, thread_cycle, heavy=2):
     """One run per choice list; thread counts cycle through 1, 2, 3, 8 and a few 16 (a kernel launch with 16 threads costs ~0.6 s on a loaded machine)."""
     runs = []
     n16 = 0
+    if TIER['quick'] and heavy < 3:
+        heavy = min(heavy, 1)
     for i, l in enumerate(lists):
         t = thread_cycle[i % len(thread_cycle)]
         if t == 16:
@@ -410,6 +428,7 @@ class KernelKind(Kind):
     # ------------------------------------------------------------------ generation
     def gen(self, rng, tier):
         quick = tier == 'quick'
+        TIER['quick'] = quick
         self._tier = tier
         cases = list(self._gen(rng, quick))
         for i, c in enumerate(cases):
@@ -502,7 +521,7 @@ class KernelKind(Kind):
     def run(self, case):
         cid = case.get('cid')
         if self._pending and not self._cache:
-            nworkers = 5 if self._tier == 'quick' else 8
+            nworkers = 5 if self._tier == 'quick' else 10
             t0 = time.time()
             self._cache = _prefetch(self._pending, nworkers)
             core.log(f'  [C11] {len(self._pending)} cases / {sum(len(c["runs"]) for c in self._pending)} runs on the real code in {time.time() - t0:.1f}s')
